@@ -3168,6 +3168,27 @@ M('C10', 'payload-text-rstripped-equals', TY, "        payload = base64.b64encod
 M('C10', 'from-blob-strips-binary-input', TY, "            po = obj.parse(bytearray(blob))", "            po = obj.parse(bytearray(blob).strip())", 'C10.5')
 M('C10', 'from-blob-strips-text-input-only-head', TY, "            po = obj.parse(bytearray(blob, 'latin-1'))", "            po = obj.parse(bytearray(blob[1:], 'latin-1'))", 'C10.5')
 
+# ---- C10 wave-3 lessons: text/binary classifier alphabets, piecewise encoding
+_ISB = "            return bool(re.match(br'^[ -~\\r\\n\\t]*$', text, flags=re.ASCII))"
+_ISS = "            return bool(re.match(r'^[ -~\\r\\n\\t]*$', text, flags=re.ASCII))"
+M('C10', 'is-ascii-bytes-without-tab', TY, _ISB, "            return bool(re.match(br'^[ -~\\r\\n]*$', text, flags=re.ASCII))", 'C10.5')
+M('C10', 'is-ascii-bytes-translate-table-without-tab', TY, _ISB, "            return len(text.translate(None, Armorable.__ascii_octets)) == 0", 'C10.5',
+  more=[(TY, "    @staticmethod\n    def is_ascii(text):", "    __ascii_octets = bytes(bytearray(range(0x20, 0x7F))) + b'\\r\\n'\n\n    @staticmethod\n    def is_ascii(text):")])
+T('C10', 'twin-is-ascii-bytes-translate-table', TY, _ISB, "            return not text.translate(None, Armorable.__ascii_octets)",
+  more=[(TY, "    @staticmethod\n    def is_ascii(text):", "    __ascii_octets = bytes(bytearray(range(0x20, 0x7F))) + b'\\t\\r\\n'\n\n    @staticmethod\n    def is_ascii(text):")])
+T('C10', 'twin-is-ascii-fullmatch-reordered-class', TY, _ISS, "            return re.fullmatch(r'[\\t\\n\\r\\x20-\\x7e]*', text) is not None")
+M('C10', 'is-ascii-str-without-cr', TY, _ISS, "            return bool(re.match(r'^[ -~\\n\\t]*$', text, flags=re.ASCII))", 'C10.5')
+M('C10', 'is-ascii-bytes-isascii-method', TY, _ISB, "            return text.isascii()", 'C10.5')
+M('C10', 'is-ascii-bytes-accepts-latin1', TY, _ISB, "            return bool(re.match(br'^[ -\\xff\\r\\n\\t]*$', text, flags=re.ASCII))", 'C10.5')
+M('C10', 'is-ascii-str-plus-instead-of-star-and-del', TY, _ISS, "            return bool(re.match(r'^[ -\\x7f\\r\\n\\t]*$', text, flags=re.ASCII))", 'C10.5')
+_WRAP = "        payload = base64.b64encode(self.__bytes__()).decode('latin-1')\n        payload = '\\n'.join(payload[i:(i + 64)] for i in range(0, len(payload), 64))\n"
+M('C10', 'payload-encoded-in-blocks-of-4096-octets', TY, _WRAP, "        data = self.__bytes__()\n        lines = []\n        for ofs in range(0, len(data), 4096):\n            block = base64.b64encode(data[ofs:(ofs + 4096)]).decode('latin-1')\n            lines.extend(block[i:(i + 64)] for i in range(0, len(block), 64))\n        payload = '\\n'.join(lines)\n", 'C10.2')
+T('C10', 'twin-payload-encoded-in-blocks-of-3072-octets', TY, _WRAP, "        data = self.__bytes__()\n        lines = []\n        for ofs in range(0, len(data), 3072):\n            block = base64.b64encode(data[ofs:(ofs + 3072)]).decode('latin-1')\n            lines.extend(block[i:(i + 64)] for i in range(0, len(block), 64))\n        payload = '\\n'.join(lines)\n")
+T('C10', 'twin-payload-one-line-per-48-octets', TY, _WRAP, "        data = self.__bytes__()\n        payload = '\\n'.join(base64.b64encode(data[i:(i + 48)]).decode('latin-1') for i in range(0, len(data), 48))\n")
+M('C10', 'payload-one-line-per-50-octets', TY, _WRAP, "        data = self.__bytes__()\n        payload = '\\n'.join(base64.b64encode(data[i:(i + 50)]).decode('latin-1') for i in range(0, len(data), 50))\n", 'C10.2')
+M('C10', 'payload-pieces-48-step-64', TY, _WRAP, "        data = self.__bytes__()\n        payload = '\\n'.join(base64.b64encode(data[i:(i + 48)]).decode('latin-1') for i in range(0, len(data), 64))\n", 'C10.2')
+M('C10', 'payload-pieces-of-57-octets-lines-of-76-ok-but-reader-64', TY, _WRAP, "        data = self.__bytes__()\n        payload = '\\n'.join(base64.b64encode(data[i:(i + 60)]).decode('latin-1') for i in range(0, len(data), 60))\n", 'C10.3')
+
 # =============================================================================================== C11
 M('C11', 'escape-two-spaces', PGP, "        return re.subn(r'^-', '- -', text, flags=re.MULTILINE)[0]", "        return re.subn(r'^-', '-  -', text, flags=re.MULTILINE)[0]", 'C11.1')
 M('C11', 'unescape-no-multiline', PGP, "        return re.subn(r'^- ', '', text, flags=re.MULTILINE)[0]", "        return re.subn(r'^- ', '', text)[0]", 'C11.1')
@@ -3355,6 +3376,22 @@ M('C11', 'cleartext-rstripped-in-parse', PGP, "            self |= self.dash_une
 M('C11', 'hash-header-first-digest-only', PGP, "hashes=','.join(sorted(hashes))", "hashes=','.join(sorted(hashes)[:1])", 'C11.3')
 M('C11', 'unescape-any-whitespace-after-dash', PGP, "        return re.subn(r'^- ', '', text, flags=re.MULTILINE)[0]", "        return re.subn(r'^-\\s', '', text, flags=re.MULTILINE)[0]", 'C11.1')
 M('C11', 'escape-case-from-lines-too', PGP, "        return re.subn(r'^-', '- -', text, flags=re.MULTILINE)[0]", "        return re.subn(r'^-', '- -', text.strip(), flags=re.MULTILINE)[0]", 'C11.1')
+
+# ---- C11 wave-3 lessons: what `.` matches, line-start relations
+_CT = "(?P<cleartext>(.*\\r?\\n)*(.*?(?=\\r?\\n-{5})))(?:\\r?\\n)"
+M('C11', 'cleartext-final-line-plain-dot-star', TY, _CT, "(?P<cleartext>(.*\\r?\\n)*(.*))(?:\\r?\\n)", 'C11.7')
+M('C11', 'cleartext-lookahead-lf-only', TY, _CT, "(?P<cleartext>(.*\\r?\\n)*(.+?(?=\\n-{5})))(?:\\r?\\n)", 'C11.7')
+M('C11', 'cleartext-final-line-not-newline-class', TY, _CT, "(?P<cleartext>(.*\\r?\\n)*([^\\n]*))(?:\\r?\\n)", 'C11.7')
+M('C11', 'cleartext-includes-final-line-ending', TY, _CT, "(?P<cleartext>(.*\\r?\\n)*(.*?(?=\\r?\\n-{5}))(?:\\r?\\n))", 'C11.7')
+T('C11', 'twin-cleartext-final-line-respelled', TY, _CT, "(?P<cleartext>(?:.*\\r?\\n)*(?:.*?(?=(?:\\r\\n|\\n)-----)))(?:\\r\\n|\\n)")
+M('C11', 'hash-framing-second-newline-optional', TY, "(Hash:\\ (?P<hashes>[A-Za-z0-9\\-,]+)(?:\\r?\\n){2})?", "(Hash:\\ (?P<hashes>[A-Za-z0-9\\-,]+)(?:\\r?\\n)(?:\\r?\\n)?)?", 'C11.3')
+M('C11', 'unescape-over-splitlines-keepends', PGP, _UNE, "        return ''.join(line[2:] if line.startswith('- ') else line for line in text.splitlines(True))", 'C11.1')
+M('C11', 'escape-over-splitlines', PGP, _ESC, "        return '\\n'.join(('- ' + line if line.startswith('-') else line) for line in text.splitlines())", 'C11.1')
+T('C11', 'twin-unescape-per-line-conditional-slice', PGP, _UNE, "        return '\\n'.join(line[2:] if line.startswith('- ') else line for line in text.split('\\n'))")
+M('C11', 'unescape-per-line-slice-three', PGP, _UNE, "        return '\\n'.join(line[3:] if line.startswith('- ') else line for line in text.split('\\n'))", 'C11.1')
+M('C11', 'escape-after-newline-lookbehind', PGP, _ESC, "        return re.sub(r'(?<=\\n)-', '- -', text)", 'C11.1')
+M('C11', 'unescape-after-cr-or-lf', PGP, _UNE, "        return re.sub(r'(?:^|(?<=[\\r\\n]))- ', '', text)", 'C11.1')
+M('C11', 'escape-split-on-crlf', PGP, _ESC, "        return '\\r\\n'.join(('- ' + line if line.startswith('-') else line) for line in text.split('\\r\\n'))", 'C11.1')
 
 # =============================================================================================== C09
 M('C09', 'enc-191', TY, "            if 192 > nl:\n                return Header.int_to_bytes(nl)", "            if 191 > nl:\n                return Header.int_to_bytes(nl)", 'C09.1')
